@@ -16,7 +16,7 @@ NestArg(bt, bv) == MapV(NestArgT(bt), [a |-> MapV(TObj([x |-> TNum, y |-> TBool]
 Params == [ty : PTypes, an : BOOLEAN, au : BOOLEAN, ad : BOOLEAN, am : BOOLEAN]
           \cup {[ty |-> NestT, an |-> f, au |-> f, ad |-> f, am |-> f] : f \in BOOLEAN}
 \* argument descriptors, made concrete relative to the parameter type
-Descs == {"conf", "nonconf", "null", "unk", "dyn", "dynnull", "mtop", "mdeep", "munk", "mnull", "mdeepunk"}
+Descs == {"conf", "nonconf", "null", "unk", "dyn", "dynnull", "mtop", "mdeep", "munk", "mnull", "mdeepunk", "msib"}
 Base(t) == IF t.k = "object" THEN NestArg(TStr, StrV(<<"a">>)) ELSE IF t.k = "list" THEN SeqV(TList(TStr), <<StrV(<<"a">>), StrV(<<"b">>)>>) ELSE StrV(<<"a">>)
 BT(t) == IF t.k = "object" THEN NestArgT(TStr) ELSE IF t.k = "list" THEN TList(TStr) ELSE TStr
 ArgVal(d, t) ==
@@ -33,6 +33,10 @@ ArgVal(d, t) ==
     [] d = "mdeepunk" -> IF t.k = "list" THEN SeqV(TList(TStr), <<WithMk(StrV(<<"b">>), <<"m2">>), Unk(TStr, NoRf)>>)
                          ELSE IF t.k = "dynamic" THEN SeqV(TTup(<<TStr, TStr>>), <<WithMk(StrV(<<"b">>), <<"m1">>), Unk(TStr, NoRf)>>) ELSE WithMk(Unk(TStr, [null |-> "F"]), <<"m1">>)
     [] d = "mnull" -> WithMk(Null(BT(t)), <<"m1">>)
+    \* one mark met again in a second nested container (and on a container as well as inside it)
+    [] d = "msib" -> IF t.k = "dynamic" THEN SeqV(TTup(<<TList(TStr), TList(TStr)>>), <<SeqV(TList(TStr), <<WithMk(StrV(<<"a">>), <<"m1">>)>>), SeqV(TList(TStr), <<WithMk(StrV(<<"b">>), <<"m1">>)>>)>>)
+                     ELSE IF t.k = "list" THEN WithMk(SeqV(TList(TStr), <<StrV(<<"a">>), WithMk(StrV(<<"b">>), <<"m1">>)>>), <<"m1">>)
+                     ELSE WithMk(Base(t), <<"m1">>)
 Tcbs == {"okT", "okDyn", "err", "panic"}
 Icbs == {"conf", "nonconf", "err", "panic", "unknown"}
 MkArgs(s, ds) == [i \in 1..Len(ds) |-> ArgVal(ds[i], IF IsParam(ParamOf(s, i)) THEN ParamOf(s, i).ty ELSE TStr)]
